@@ -21,6 +21,51 @@ package statedb
 //@   ensures cnt(s, j) <= cnt(s, i) && cnt(s, i) - cnt(s, j) <= i - j
 //@   loop 1 invariant j <= x && x <= i && cnt(s, j) <= cnt(s, x) && cnt(s, x) - cnt(s, j) <= x - j
 
+// The pure-math lemmas behind C18, as lemma procedures (zz_verif_ghost.go).
+//@ func lemmaEncNoZero
+//@   property C04 C18
+//@   flag nosafety
+//@   requires isEnc(o, off, s) && 0 <= p && p < encLen(s) && off >= 0
+//@   ensures @no-zero-byte-in-an-escaped-key o[off + p] >= 1
+//@   loop 1 invariant 0 <= k && k <= len(s) && c == cnt(s, k) && c >= 0 && k + c <= p
+
+//@ func verifCnt
+//@   property C04 C18
+//@   pure
+//@   flag nosafety
+//@   requires 0 <= i && i <= len(s)
+//@   ensures result == cnt(s, i) && result >= 0 && result <= i
+//@   loop 1 invariant 0 <= k && k <= i && c == cnt(s, k) && c >= 0 && c <= k
+//@ func lemmaEncPrefix
+//@   property C04 C18
+//@   flag nosafety
+//@   requires isEnc(ea, offa, a) && isEnc(eb, offb, b) && 0 <= k && k <= len(a) && k <= len(b) && offa >= 0 && offb >= 0 && n == k + cnt(a, k)
+//@   requires forall i int :: 0 <= i && i < k ==> a[i] == b[i]
+//@   ensures @same-image-length n == k + cnt(b, k) && n >= k
+//@   ensures @images-of-a-common-prefix-agree forall j int :: 0 <= j && j < n ==> ea[offa + j] == eb[offb + j]
+//@   ensures @images-agree-at-absolute-positions offa == offb ==> (forall j int :: offa <= j && j < offa + n ==> ea[j] == eb[j])
+//@   loop 1 invariant 0 <= i && i <= k && cnt(a, i) == cnt(b, i) && cnt(a, i) >= 0
+//@   loop 1 invariant forall j int :: 0 <= j && j < i + cnt(a, i) ==> ea[offa + j] == eb[offb + j]
+//@   loop 1 invariant offa == offb ==> (forall j int :: offa <= j && j < offa + i + cnt(a, i) ==> ea[j] == eb[j])
+//@ func lemmaEncOrder
+//@   property C04 C18
+//@   flag nosafety
+//@   requires isEnc(ea, offa, a) && isEnc(eb, offb, b) && 0 <= k && k < len(a) && k < len(b) && offa >= 0 && offb >= 0 && n == k + cnt(a, k)
+//@   requires (forall i int :: 0 <= i && i < k ==> a[i] == b[i]) && a[k] < b[k]
+//@   ensures @inside-both-images n >= 0 && n < encLen(a) && n < encLen(b)
+//@   ensures @agree-before-the-first-difference forall j int :: 0 <= j && j < n ==> ea[offa + j] == eb[offb + j]
+//@   ensures @agree-at-absolute-positions offa == offb ==> (forall j int :: offa <= j && j < offa + n ==> ea[j] == eb[j])
+//@   ensures @strictly-ordered-at-the-first-difference ea[offa + n] < eb[offb + n] || (ea[offa + n] == eb[offb + n] && ea[offa + n + 1] < eb[offb + n + 1] && n + 1 < encLen(a) && n + 1 < encLen(b))
+//@ func lemmaEncProperPrefix
+//@   property C04 C18
+//@   flag nosafety
+//@   requires isEnc(ea, offa, a) && isEnc(eb, offb, b) && len(a) < len(b) && offa >= 0 && offb >= 0 && n == encLen(a)
+//@   requires forall i int :: 0 <= i && i < len(a) ==> a[i] == b[i]
+//@   ensures @shorter-image-is-shorter n >= 0 && n < encLen(b)
+//@   ensures @agree-on-the-shorter-image forall j int :: 0 <= j && j < n ==> ea[offa + j] == eb[offb + j]
+//@   ensures @agree-at-absolute-positions offa == offb ==> (forall j int :: offa <= j && j < offa + n ==> ea[j] == eb[j])
+//@   ensures @longer-image-continues-with-a-non-zero-byte eb[offb + n] >= 1
+
 //@ func appendEncode returns (n, out)
 //@   property C04 C18
 //@   requires len(src) == 0 || arr(dst) != arr(src)
@@ -52,6 +97,44 @@ package statedb
 //   enc(secondary) 0x00 enc(primary) hi(len(enc(primary))) lo(len(enc(primary)))
 //@ spec isComposite(K []byte, secondary []byte, primary []byte) bool = len(K) == encLen(secondary) + 1 + encLen(primary) + 2 && isEnc(K, 0, secondary) && K[encLen(secondary)] == 0 && isEnc(K, encLen(secondary) + 1, primary) && K[len(K)-2] == encLen(primary) / 256 && K[len(K)-1] == encLen(primary) % 256
 
+// Order and injectivity of the composite key (C18), for all keys: lessAt(x, y, p) - x and y agree
+// before p and x is smaller at p - is a witness of x < y in bytewise order.
+//@ spec lessAt(x []byte, y []byte, p mathint) bool = 0 <= p && p < len(x) && p < len(y) && (forall j int :: 0 <= j && j < p ==> x[j] == y[j]) && x[p] < y[p]
+//@ spec sameBytes(x []byte, y []byte) bool = len(x) == len(y) && (forall j int :: 0 <= j && j < len(x) ==> x[j] == y[j])
+//@ func lemmaCompositeSecondaryOrder
+//@   property C04 C18
+//@   flag nosafety
+//@   requires isComposite(Ka, sa, pa) && isComposite(Kb, sb, pb) && 0 <= k && k <= len(sa) && k < len(sb) && P == k + cnt(sa, k)
+//@   requires (forall i int :: 0 <= i && i < k ==> sa[i] == sb[i]) && (k < len(sa) ==> sa[k] < sb[k])
+//@   ensures @witness-inside-both-keys 0 <= P && P + 1 < len(Ka) && P + 1 < len(Kb)
+//@   ensures @agree-before-the-witness forall j int :: 0 <= j && j < P ==> Ka[j] == Kb[j]
+//@   ensures @separator-meets-a-non-zero-byte k == len(sa) ==> Ka[P] < Kb[P]
+//@   ensures @ordered-by-the-secondary-key-first lessAt(Ka, Kb, P) || (k < len(sa) && lessAt(Ka, Kb, P + 1))
+//@ func lemmaCompositePrimaryOrder
+//@   property C04 C18
+//@   flag nosafety
+//@   requires isComposite(Ka, sa, pa) && isComposite(Kb, sb, pb) && sameBytes(sa, sb) && 0 <= k && k <= len(pa) && k < len(pb)
+//@   requires n0 == encLen(sa) + 1 && P == k + cnt(pa, k)
+//@   requires (forall i int :: 0 <= i && i < k ==> pa[i] == pb[i]) && (k < len(pa) ==> pa[k] < pb[k])
+//@   requires k == len(pa) ==> encLen(pa) < 256
+//@   ensures @same-secondary-image n0 == encLen(sb) + 1 && n0 >= 1 && P >= 0
+//@   ensures @witness-inside-both-keys n0 + P < len(Ka) && n0 + P < len(Kb)
+//@   ensures @secondary-images-and-separator-agree forall j int :: 0 <= j && j < n0 ==> Ka[j] == Kb[j]
+//@   ensures @primary-images-agree-before-the-witness forall j int :: 0 <= j && j < P ==> Ka[n0 + j] == Kb[n0 + j]
+//@   ensures @primary-images-agree-at-absolute-positions forall j int :: n0 <= j && j < n0 + P ==> Ka[j] == Kb[j]
+//@   ensures @agree-before-the-witness forall j int :: 0 <= j && j < n0 + P ==> Ka[j] == Kb[j]
+//@   ensures @length-suffix-meets-a-non-zero-byte k == len(pa) ==> Ka[n0 + P] < Kb[n0 + P]
+//@   ensures @then-by-the-primary-key lessAt(Ka, Kb, n0 + P) || (k < len(pa) && lessAt(Ka, Kb, n0 + P + 1))
+
+//@ func lemmaCompositeInjective
+//@   property C04 C18
+//@   flag nosafety
+//@   requires isComposite(K, sa, pa) && isComposite(K, sb, pb)
+//@   ensures @same-secondary-key sameBytes(sa, sb)
+//@   ensures @same-primary-key sameBytes(pa, pb)
+//@   loop 1 invariant 0 <= k && k <= len(sa) && k <= len(sb) && (forall i int :: 0 <= i && i < k ==> sa[i] == sb[i])
+//@   loop 2 invariant 0 <= j && j <= len(pa) && j <= len(pb) && (forall i int :: 0 <= i && i < j ==> pa[i] == pb[i]) && sameBytes(sa, sb) && n0 == encLen(sa) + 1
+
 //@ func encodeNonUniqueKey
 //@   property C04 C18
 //@   requires encLen(primary) <= 65535
@@ -61,6 +144,7 @@ package statedb
 //@   ensures @encP isEnc(result, encLen(secondary) + 1, primary)
 //@   ensures @hi result[len(result)-2] == encLen(primary) / 256
 //@   ensures @lo result[len(result)-1] == encLen(primary) % 256
+//@   ensures @composite-key-of-its-arguments isComposite(result, secondary, primary)
 //@   ensures @fresh fresh(result)
 
 //@ func nonUniqueKey.primaryLen
